@@ -89,7 +89,7 @@ class Check:
         t0 = time.time()
         d = T.lift(lhs) - T.lift(rhs) if not _is_zero(rhs) else T.lift(lhs)
         # 1. numeric falsification at high precision (a refutation with a witness; never a proof)
-        wit = falsify(d, self.rng, ranges)
+        wit = falsify(d, self.rng, ranges, assumptions=assumptions)
         if wit is not None:
             return self.record(name, "refuted", "mp-falsify", time.time() - t0, fn, goal,
                                detail=f"lhs - rhs = {wit['residual']} (relative {wit['relative']}) at {wit['env']}", witness=wit, replay=replay)
@@ -154,6 +154,72 @@ class Check:
 
     def error(self, name, detail):
         return self.record(name, "error", "checker", 0.0, None, None, detail)
+
+    def parallel(self, tasks, worker, jobs=None):
+        """Run worker(child_check, task) for every task in forked worker processes (fork: the transformed modules and
+        all contract state are inherited) and merge the recorded obligations in task order."""
+        import multiprocessing as mp
+
+        jobs = jobs or int(os.environ.get("PYVC_JOBS", "0")) or min(16, os.cpu_count() or 4)
+        tasks = list(tasks)
+        if jobs <= 1 or len(tasks) <= 1:
+            for t in tasks:
+                worker(self, t)
+            return
+        ctx = mp.get_context("fork")
+        parent = self
+
+        def run(idx):
+            from . import vnp
+
+            child = Check(parent.pid, parent.tier, parent.seed + idx + 1, parent.level)
+            try:
+                worker(child, tasks[idx])
+            except Unsupported as e:
+                child.error(f"checker[{idx}]", f"unsupported: {e}")
+            except Exception as e:
+                child.error(f"checker[{idx}]", f"harness exception {type(e).__name__}: {e}\n{traceback.format_exc()[-600:]}")
+            for o in child.obls:
+                if callable(o.get("replay")):
+                    try:
+                        o["replay"] = o["replay"](o.get("witness"))
+                    except Exception:
+                        o["replay"] = None
+            return (idx, child.obls, child.trusted, child.assumptions, child.functions, child.bounded_parts, child.not_covered,
+                    child.configs, child.extra, child.backend_time, sorted(vnp.USED), dict(smt.STATS))
+
+        call = _ParallelCall(run)   # must exist before the workers are forked
+        with ctx.Pool(jobs) as pool:
+            results = pool.map(call, range(len(tasks)), chunksize=1)
+        from . import vnp
+
+        for (idx, obls, trusted, assum, fns, bounded, notcov, configs, extra, btime, used, stats) in sorted(results):
+            for o in obls:
+                if o["name"] in self._names:
+                    k = 2
+                    while f"{o['name']}#{k}" in self._names:
+                        k += 1
+                    o["name"] = f"{o['name']}#{k}"
+                self._names.add(o["name"])
+                self.obls.append(o)
+            self.trust(*trusted)
+            self.assume(*assum)
+            self.under_contract(*fns)
+            for b in bounded:
+                if b not in self.bounded_parts:
+                    self.bounded_parts.append(b)
+            self.uncovered(*notcov)
+            self.configs += configs
+            for k, v in extra.items():
+                if isinstance(v, (int, float)) and not isinstance(v, bool):
+                    self.extra[k] = self.extra.get(k, 0) + v
+                else:
+                    self.extra.setdefault(k, v)
+            for k, v in btime.items():
+                self.backend_time[k] = self.backend_time.get(k, 0.0) + v
+            vnp.USED.update(used)
+            for k, v in stats.items():
+                smt.STATS[k] = smt.STATS.get(k, 0) + v
 
     def run_paths(self, name, thunk, assumptions=(), fn=None, replay=None, goal="no unexpected exception"):
         """Execute repository code under path exploration (A4).  Returns [(tag, pc, value)] for the feasible paths that
@@ -299,8 +365,9 @@ class Check:
             by_backend[o["backend"]] = by_backend.get(o["backend"], 0) + 1
         trusted = list(self.trusted) + sorted("shim contract: " + u for u in vnp.USED)
         cov = dict(
-            obligations=n_obl,
-            discharged=n_dis + len(known_hits) * 0,
+            obligations=n_obl - len(known_hits),   # obligations claimed: those failing exactly as a listed known finding are reported separately
+            known_finding_obligations=len(known_hits),
+            discharged=n_dis,
             checker_cmd=f"./vc check {self.pid} --tier {self.tier}",
             trusted_base=trusted,
             samples=samples,
@@ -368,12 +435,15 @@ class time_limit:
         return False
 
 
-def falsify(expr, rng, ranges=None, points=3, digits=60, rel=1e-25):
-    """Try to show expr != 0 by evaluation at random rational points (60 digits).  Returns a witness or None.
-    A point counts only if the residual exceeds `rel` times the largest summand (so rounding cannot fake it)."""
-    vs = sorted(T.free_vars(expr))
+def falsify(expr, rng, ranges=None, points=3, digits=60, rel=1e-25, assumptions=()):
+    """Try to show expr != 0 by evaluation at rational points satisfying the assumptions (60 digits).  Returns a witness
+    or None.  A point counts only if the residual exceeds `rel` times the largest summand (so rounding cannot fake it).
+    Points: random in the given ranges (rejected when an assumption evaluates to false), then a z3 model of the assumptions."""
+    assumptions = [a for a in assumptions if isinstance(a, Sym)]
+    vs = sorted(T.free_vars(expr, *assumptions))
     ranges = ranges or {}
-    for _ in range(points):
+    cands = []
+    for _ in range(points * (8 if assumptions else 1)):
         env = {}
         for v in vs:
             lo, hi = ranges.get(v, ranges.get("*", (0.1, 2.0)))
@@ -381,6 +451,27 @@ def falsify(expr, rng, ranges=None, points=3, digits=60, rel=1e-25):
                 env[v] = Fraction(rng.randint(lo, hi))
             else:
                 env[v] = Fraction(round(rng.uniform(lo, hi) * 10**6), 10**6)
+        if assumptions:
+            try:
+                if not all(bool(T.evalmp(a, env, 30)) for a in assumptions):
+                    continue
+            except Exception:
+                continue
+        cands.append(env)
+        if len(cands) >= points:
+            break
+    if assumptions and not cands:
+        try:
+            r, m = smt.check(assumptions, None, 3000)
+            if r == "sat":
+                env = {}
+                for v in vs:
+                    val = m.get(v, Fraction(1, 2))
+                    env[v] = val if isinstance(val, Fraction) else Fraction(1, 2)
+                cands.append(env)
+        except Exception:
+            pass
+    for env in cands:
         try:
             val, scale = T.magnitude(expr, env, digits)
         except (ZeroDivisionError, ValueError, OverflowError, Unsupported, TypeError):
@@ -392,6 +483,17 @@ def falsify(expr, rng, ranges=None, points=3, digits=60, rel=1e-25):
 
             return dict(env={k: float(v) for k, v in env.items()}, residual=mp.nstr(val, 12), relative=mp.nstr(abs(val) / scale, 5))
     return None
+
+
+class _ParallelCall:
+    """picklable-by-fork callable wrapper (the closure itself lives in the forked child's memory)"""
+    _fn = None
+
+    def __init__(self, fn):
+        _ParallelCall._fn = fn
+
+    def __call__(self, idx):
+        return _ParallelCall._fn(idx)
 
 
 def _is_zero(x):
@@ -425,8 +527,10 @@ def _kf_match(k, o):
     pat = k.get("obligation")
     if pat is None:
         return False
-    if pat.endswith("*"):
-        return o["name"].startswith(pat[:-1])
+    import fnmatch
+
+    if any(ch in pat for ch in "*?"):
+        return fnmatch.fnmatchcase(o["name"], pat.replace("[", "[[]"))
     return o["name"] == pat
 
 
